@@ -209,6 +209,60 @@ def c_column(pos: int, o1: int, o2: int) -> bool:
     return res == [expected_table(cols, pk)]
 
 
+def c_column3(pos: int, o1: int, o2: int, o3: int) -> bool:
+    """
+    C01 (thorough): as c_column with three options in any order.
+
+    pre: 0 <= pos <= 2
+    pre: 0 <= o1 < NO and 0 <= o2 < NO and 0 <= o3 < NO
+    pre: O1 < 0 or o1 == O1
+    pre: len([o for o in (o1, o2, o3) if o in DEFAULTS]) <= 1 and len([o for o in (o1, o2, o3) if o in REFS]) <= 1
+    pre: not (o1 == 3 and o2 in REFS) and not (o2 == 3 and o3 in REFS)
+    post: _
+    """
+    ttoks, tname, tsize = type_tokens("10", "2")
+    col_toks = ident("k") + ttoks + OPTS[o1][1]("ab") + OPTS[o2][1]("ab") + OPTS[o3][1]("ab")
+    names = ["p", "q"]
+    cols_tokens, cols, pk = [], [], []
+    j = 0
+    for i in range(3):
+        if i == pos:
+            cols_tokens.append(col_toks)
+            c = plain_col("k")
+            c["type"], c["size"] = tname, tsize
+            for o in (o1, o2, o3):
+                OPTS[o][2](c, pk, "ab")
+            cols.append(c)
+        else:
+            cols_tokens.append(ident(names[j]) + ident("int"))
+            cols.append(plain_col(names[j]))
+            j += 1
+    out = drive(table_tokens(cols_tokens))
+    if not isinstance(out, dict):
+        return False
+    res = norm_refs(fmt([out], "sql"))
+    return res == [expected_table(cols, pk)]
+
+
+def api_c_column3(pos, o1, o2, o3):
+    from simple_ddl_parser import DDLParser
+    ttoks, tname, tsize = type_tokens("10", "2")
+    col = "k " + _text(ttoks).replace(" . ", ".") + " " + " ".join(_text(OPTS[o][1]("ab")).replace(" . ", ".") for o in (o1, o2, o3))
+    cols_txt = ["p int", "q int"]
+    cols_txt.insert(pos, col)
+    ddl = "CREATE TABLE t ( " + " , ".join(cols_txt) + " ) ;"
+    c = plain_col("k")
+    c["type"], c["size"] = tname, tsize
+    pk = []
+    for o in (o1, o2, o3):
+        OPTS[o][2](c, pk, "ab")
+    cols = [plain_col("p"), plain_col("q")]
+    cols.insert(pos, c)
+    got = norm_refs(DDLParser(ddl).run())
+    want = [expected_table(cols, pk)]
+    return {"ddl": ddl, "got": got, "expected": want, "reproduced": got != want}
+
+
 class UInt:
     def __init__(self, arg):
         self.arg = arg
